@@ -360,3 +360,53 @@ pub fn loop_has_jumps(body: &syn::Block, label: Option<&str>) -> bool {
     j.visit_block(body);
     j.found
 }
+
+/// call sites (by simple callee / method name) of fns that take explicit randomness parameters: the first one that sits
+/// inside a loop or a closure (there the number of parameters would depend on the run)
+pub struct RandScan<'a> {
+    pub names: &'a [String],
+    pub depth: usize,
+    pub bad: Option<proc_macro2::Span>,
+}
+
+impl<'a, 'ast> syn::visit::Visit<'ast> for RandScan<'a> {
+    fn visit_expr_for_loop(&mut self, i: &'ast syn::ExprForLoop) {
+        syn::visit::visit_expr(self, &i.expr);
+        self.depth += 1;
+        syn::visit::visit_block(self, &i.body);
+        self.depth -= 1;
+    }
+    fn visit_expr_while(&mut self, i: &'ast syn::ExprWhile) {
+        self.depth += 1;
+        syn::visit::visit_expr_while(self, i);
+        self.depth -= 1;
+    }
+    fn visit_expr_loop(&mut self, i: &'ast syn::ExprLoop) {
+        self.depth += 1;
+        syn::visit::visit_expr_loop(self, i);
+        self.depth -= 1;
+    }
+    fn visit_expr_closure(&mut self, i: &'ast syn::ExprClosure) {
+        self.depth += 1;
+        syn::visit::visit_expr_closure(self, i);
+        self.depth -= 1;
+    }
+    fn visit_expr_call(&mut self, i: &'ast syn::ExprCall) {
+        if self.depth > 0 && self.bad.is_none() {
+            if let syn::Expr::Path(p) = &*i.func {
+                if let Some(l) = p.path.segments.last() {
+                    if self.names.iter().any(|n| l.ident == n) {
+                        self.bad = Some(syn::spanned::Spanned::span(i));
+                    }
+                }
+            }
+        }
+        syn::visit::visit_expr_call(self, i);
+    }
+    fn visit_expr_method_call(&mut self, i: &'ast syn::ExprMethodCall) {
+        if self.depth > 0 && self.bad.is_none() && self.names.iter().any(|n| i.method == n) {
+            self.bad = Some(syn::spanned::Spanned::span(i));
+        }
+        syn::visit::visit_expr_method_call(self, i);
+    }
+}
